@@ -387,7 +387,14 @@ def _op_ivp(ctx, op, state):
             ctx.log.add(ctx.step, "ivp", "skip-not-increasing")
             return
         if tspec[0] in ("exp", "power", "lininf") and tspec[3] is None:
-            tf = twin  # the IVP solver sees a 2-element span first: give it the explicit scale
+            if (P["n"] + ctx.step) % 2 or method != "DOP853":
+                # the caller fixes the scale itself ... (always so for the lower-order / implicit integrators: a scale
+                # taken from the starting point makes the map several times steeper, where they lose 3-5 digits)
+                tf = twin
+            else:
+                # ... or leaves it to the transform, which takes it from the first thing it sees (the starting point):
+                # whatever scale that is, the answer is the same function of the original variable
+                ctx.probes.hit("ivp-through-scale-inferring-transform")
     reverse = len(op) > 4 and bool(op[4])
     if reverse:
         a, b = b, a  # integrate from the upper end down to the lower end (a decreasing span, as solve_poisson_ivp does)
